@@ -72,23 +72,30 @@ Definition sched_c08 : list (N * choice) :=
     (1, COp (OpFree b00 false)); (1, CGo); (1, CGo); (1, CGo); (1, CGo); (1, CGo); (1, CGo); (1, CGo);
     (1, COp (OpFree b01 false)); (1, CGo); (1, CGo) ].
 
+(* Examples are closed boolean computations (nothing is computed under a binder) *)
+Definition after (sched : list (N * choice)) (f : cfg -> bool) : bool :=
+  match run init sched with Some (Ok c) => f c | _ => false end.
+Definition after_collect (sched : list (N * choice)) (t h : N) (f : cfg -> cfg -> bool) : bool :=
+  after sched (fun c => match cstep c t (COp (OpHeapCollect h true)) with
+                        | ROk c1 None => match solo 200 c1 t with Some c' => f c c' | None => false end
+                        | _ => false end).
+Definition beq_bl (a b : list bid) : bool := Nat.eqb (length a) (length b) && forallb (fun x => mem_bid x b) a.
+
 Example ex_quiescent_before :
-  exists c, run init sched_c08 = Some (Ok c) /\ quiescent c = true
-    /\ pg_full (getp c 0) = true /\ pg_flag (getp c 0) = NoD /\ pg_tf (getp c 0) = [b01] /\ hp_del (geth c 0) = [b00]
-    /\ pg_used (getp c 0) = 3 /\ live_count c 0 = 1%nat.
-Proof. vm_compute. eexists. repeat split. Qed.
+  after sched_c08 (fun c => quiescent c && pg_full (getp c 0) && flag_eqb (pg_flag (getp c 0)) NoD
+                            && beq_bl (pg_tf (getp c 0)) [b01] && beq_bl (hp_del (geth c 0)) [b00]
+                            && (pg_used (getp c 0) =? 3) && Nat.eqb (live_count c 0) 1 && inv_b c) = true.
+Proof. vm_compute. reflexivity. Qed.
 
 (* the owner's forced collect: nothing is lost, the page is back in its size queue with used = 1 *)
 Example ex_collect_complete :
-  exists c c1 c', run init sched_c08 = Some (Ok c)
-    /\ cstep c 0 (COp (OpHeapCollect 0 true)) = ROk c1 None /\ solo 200 c1 0 = Some c'
-    /\ hp_del (geth c' 0) = [] /\ pg_tf (getp c' 0) = [] /\ pg_used (getp c' 0) = 1 /\ pg_full (getp c' 0) = false
-    /\ pg_flag (getp c' 0) = UseD /\ collected_b c c' 0 = true /\ inv_b c' = true.
-Proof. vm_compute. do 3 eexists. repeat split. Qed.
+  after_collect sched_c08 0 0 (fun c c' =>
+    isnil (hp_del (geth c' 0)) && isnil (pg_tf (getp c' 0)) && (pg_used (getp c' 0) =? 1) && negb (pg_full (getp c' 0))
+    && flag_eqb (pg_flag (getp c' 0)) UseD && collected_b c c' 0 && quiescent c' && inv_b c') = true.
+Proof. vm_compute. reflexivity. Qed.
 
 (* ... and after the last block has been freed as well, the heap holds no pages *)
 Example ex_all_freed :
-  exists c c1 c', run init (sched_c08 ++ [(0, COp (OpFree b02 false))]) = Some (Ok c)
-    /\ cstep c 0 (COp (OpHeapCollect 0 true)) = ROk c1 None /\ solo 200 c1 0 = Some c'
-    /\ pages_of c' 0 0 = [] /\ pg_alive (getp c' 0) = false /\ inv_b c' = true.
-Proof. vm_compute. do 3 eexists. repeat split. Qed.
+  after_collect (sched_c08 ++ [(0, COp (OpFree b02 false))]) 0 0 (fun c c' =>
+    isnil (pages_of c' 0 0) && negb (pg_alive (getp c' 0)) && inv_b c') = true.
+Proof. vm_compute. reflexivity. Qed.
